@@ -1,6 +1,8 @@
 package world
 
 import (
+	"github.com/uhn/ggql/pkg/ggql"
+
 	"errors"
 	"fmt"
 	"sort"
@@ -134,6 +136,8 @@ const (
 	FaultGroup           // ggql.Errors{e1,e2}
 	FaultExt             // *ggql.Error with extensions
 	FaultNth             // list accessor failure (AnyResolver.Nth) at element 0 -- AS only
+	FaultValErr          // the resolver returns its normal value AND an error (strategy-equivalence only: what "failed" means here is not stated)
+	FaultShared          // every failing call returns the same *ggql.Error instance (an application's sentinel error)
 )
 
 // ArgRecord is what a resolver received.
@@ -152,6 +156,7 @@ type Run struct {
 	fsb    *fsBuilder
 	Rep    func(n *Node) interface{} // mixed graphs: representation of a node where the carrier is free (nil = the strategy's own)
 	Probe  []string                  // precedence probes: which lower-precedence path answered
+	Sentinel *ggql.Error             // FaultShared: the one instance every failing call returns
 }
 
 func NewRun(g *Graph) *Run { return &Run{G: g, Faults: map[CallKey]FaultKind{}} }
